@@ -528,6 +528,50 @@ def run_loopzip(rep, ctx, anchor, proof_adts, rule="R4c"):
 
 
 # ---------------------------------------------------------------------------------------------------------
+# R4l: the proof list is paired with the claims by advancing two iterators in lock-step
+def run_lockstep(rep, ctx, anchor, rule="R4a"):
+    """`while let (Some(q), Some(p)) = (queries.next(), proofs.next())`: a loop with two cursors, one over (a view of)
+    the proof list and one over something else, stops with the shorter one exactly like `zip`; the same dominating
+    comparison of the two lengths is required. Returns the number of such loops."""
+    from .meet import _natural_loops
+    from .carried import _iterator_locals
+    g = ctx.graph(anchor)
+    f = ctx.facts
+    conds = None
+    memo = {}
+    n = 0
+    per_body = defaultdict(int)
+    for bid in sorted(g.scope):
+        b = f.bodies[bid]
+        for (h, blocks) in sorted(_natural_loops(b)):
+            cursors = [c for c in sorted(_iterator_locals(b, h, blocks)) if b.locals[c].get("name") or True]
+            roots = {c: alias_roots(g, (bid, c), NOT_PROOF_LIST) for c in cursors}
+            pr = {c: proof_rooted(g, anchor, roots[c]) for c in cursors}
+            P = [c for c in cursors if pr[c]]
+            C = [c for c in cursors if not pr[c] and not any((bid, c) in roots[p] or (bid, p) in roots[c] for p in P)]
+            if not P or not C:
+                continue
+            n += 1
+            k = per_body[bid]
+            per_body[bid] += 1
+            lp = data_closure(g, shape_seeds(g, views(g, set().union(*[roots[c] for c in P]))))
+            lc = data_closure(g, shape_seeds(g, views(g, set().union(*[roots[c] for c in C]))))
+            if conds is None:
+                conds = branch_conditions(g)
+            guards = [(gb, gi) for (gb, gi, c) in conds if c in lp and c in lc]
+            good = [gs for gs in guards if guard_dominates(g, gs, (bid, h), memo)]
+            key = "%s:lockstep@%s#%d" % (anchor.key, short(bid), k)
+            sp = b.blocks[h]["term"].get("span") or b.span
+            rep.add(rule, key, bool(good),
+                    ("the loop at %s advances an iterator over the proof list in lock-step with one over the claims and is "
+                     "guarded by the length comparison at %s" % (sp, where_of(f, *good[0]))) if good else
+                    ("the loop at %s advances an iterator over the proof list in lock-step with one over the claims, stops "
+                     "with the shorter one, and %s: a shorter proof list silently leaves claims unverified" % (
+                         sp, "no branch compares the two lengths" if not guards else "the length comparison does not dominate it")), sp)
+    return n
+
+
+# ---------------------------------------------------------------------------------------------------------
 # R4p: the proof list is paired with the claims by position (index loop) instead of by zip
 def run_positional(rep, ctx, anchor, rule="R4a"):
     """positional (bounds-checked) reads of the proof list: each must be dominated by a branch whose condition is
